@@ -483,7 +483,7 @@ impl El for String {
 const CAPS: [usize; 6] = [0, 1, 3, 16, 100, 1000];
 
 /// the same set built another way (insertion order, capacity, constructor, insert-then-remove)
-fn build_set<T: El>(r: &mut Rng, xs: &[T], how: usize) -> HashableHashSet<T> {
+fn build_set<T: El>(out: &mut Out, r: &mut Rng, xs: &[T], how: usize) -> HashableHashSet<T> {
     let mut order: Vec<T> = xs.to_vec();
     match how {
         0 => {
@@ -496,8 +496,9 @@ fn build_set<T: El>(r: &mut Rng, xs: &[T], how: usize) -> HashableHashSet<T> {
             let cap = CAPS[r.below(CAPS.len())];
             let mut s = HashableHashSet::with_capacity(cap);
             if s.capacity() < cap || !s.is_empty() {
-                panic!("with_capacity({}) gives capacity {} len {}", cap, s.capacity(), s.len());
+                out.v("hh-with-capacity", &format!("set with_capacity({}) gives capacity {} len {}", cap, s.capacity(), s.len()));
             }
+            out.stat(&format!("with-capacity-{}", cap));
             for x in order { s.insert(x); }
             s
         }
@@ -516,7 +517,7 @@ fn build_set<T: El>(r: &mut Rng, xs: &[T], how: usize) -> HashableHashSet<T> {
         }
     }
 }
-fn build_map<K: El, V: El>(r: &mut Rng, ps: &[(K, V)], how: usize) -> HashableHashMap<K, V> {
+fn build_map<K: El, V: El>(out: &mut Out, r: &mut Rng, ps: &[(K, V)], how: usize) -> HashableHashMap<K, V> {
     // `ps` has distinct keys
     let mut order: Vec<(K, V)> = ps.to_vec();
     match how {
@@ -530,8 +531,9 @@ fn build_map<K: El, V: El>(r: &mut Rng, ps: &[(K, V)], how: usize) -> HashableHa
             let cap = CAPS[r.below(CAPS.len())];
             let mut m = HashableHashMap::with_capacity(cap);
             if m.capacity() < cap || !m.is_empty() {
-                panic!("with_capacity({}) gives capacity {} len {}", cap, m.capacity(), m.len());
+                out.v("hh-with-capacity", &format!("map with_capacity({}) gives capacity {} len {}", cap, m.capacity(), m.len()));
             }
+            out.stat(&format!("with-capacity-{}", cap));
             for (k, v) in order { m.insert(k, v); }
             m
         }
@@ -635,18 +637,18 @@ fn set_cases<T: El>(out: &mut Out, r: &mut Rng, n: usize) {
         let xc: Vec<T> = if r.chance(3, 4) { near_elems(r, &xb) } else { gen_elems(r) };
         // every construction of the same contents: equal, cmp Equal, same key
         let how_a = r.below(4);
-        let a = build_set(r, &xa, how_a);
+        let a = build_set(out, r, &xa, how_a);
         for how in 0..4 {
             if how == how_a { continue; }
-            let a2 = build_set(r, &xa, how);
+            let a2 = build_set(out, r, &xa, how);
             if a2 != a || a2.cmp(&a) != Ordering::Equal || a.partial_cmp(&a2) != Some(Ordering::Equal) || dkey(&a2) != dkey(&a) || a2.len() != xa.len() {
                 out.v("hh-construction", &format!("{}: {:?} built as {} and as {}: eq={} cmp={:?} keys {} {}", tag, xa, how_a, how, a2 == a, a2.cmp(&a), dkey(&a2), dkey(&a)));
             }
             out.stat(&format!("{}-variant-{}", tag, how));
         }
         let (how_b, how_c) = (r.below(4), r.below(4));
-        let b = build_set(r, &xb, how_b);
-        let cc = build_set(r, &xc, how_c);
+        let b = build_set(out, r, &xb, how_b);
+        let cc = build_set(out, r, &xc, how_c);
         // the inner hashes of the elements the REAL objects hold (checked against the generated lists), listed in
         // generation order: the iteration order of a randomly keyed table differs from run to run, the cases file must not
         for (s, xs) in [(&a, &xa), (&b, &xb)] {
@@ -741,18 +743,18 @@ fn map_cases<K: El, V: El>(out: &mut Out, r: &mut Rng, n: usize) {
         let xb: Vec<(K, V)> = if r.chance(3, 4) { near_pairs(r, &xa) } else { gen_pairs(r) };
         let xc: Vec<(K, V)> = if r.chance(3, 4) { near_pairs(r, &xb) } else { gen_pairs(r) };
         let how_a = r.below(4);
-        let a = build_map(r, &xa, how_a);
+        let a = build_map(out, r, &xa, how_a);
         for how in 0..4 {
             if how == how_a { continue; }
-            let a2 = build_map(r, &xa, how);
+            let a2 = build_map(out, r, &xa, how);
             if a2 != a || a2.cmp(&a) != Ordering::Equal || a.partial_cmp(&a2) != Some(Ordering::Equal) || dkey(&a2) != dkey(&a) || a2.len() != xa.len() {
                 out.v("hh-construction", &format!("{}: {:?} built as {} and as {}: eq={} cmp={:?} keys {} {}", tag, xa, how_a, how, a2 == a, a2.cmp(&a), dkey(&a2), dkey(&a)));
             }
             out.stat(&format!("{}-variant-{}", tag, how));
         }
         let (how_b, how_c) = (r.below(4), r.below(4));
-        let b = build_map(r, &xb, how_b);
-        let cc = build_map(r, &xc, how_c);
+        let b = build_map(out, r, &xb, how_b);
+        let cc = build_map(out, r, &xc, how_c);
         for (m, ps) in [(&a, &xa), (&b, &xb)] {
             let mut got: Vec<(K, V)> = m.iter().map(|(k, v)| (k.clone(), v.clone())).collect(); got.sort();
             let mut want = ps.clone(); want.sort();
